@@ -43,5 +43,11 @@ CHECKS["C18"] = (
     "Theorems: two-hot rows for any in-range value (edges included) are non-negative, sum to one, have at most two adjacent non-zero entries and decode to the value; symexp bins are strictly increasing; log-softmax is the log of the softmax; Huber = 0.5e^2 / delta(|e|-0.5delta); masked rows of 2-D predictions have zero weight (closed form), with the 1-D (N,N) broadcast kept visible as a refuted statement; avg-L1 output has mean |.| = 1 (finite near zero); schedule length, monotonicity, start value and constant tail. Polymorphic kernels are extracted and compared with the implementation on every run.",
     "Trusts: Coq kernel + standard-library real-number axioms (Print Assumptions); extraction, OCaml glue (float64 libm), harness; float32-vs-float64 tolerances as stated in the evidence. Hypothesis of the two-hot theorem: bin range below the code's 1e8 offset (true for the default exponents +-10).",
 )
+CHECKS["C07"] = (
+    "DESIGN.md §2 C07",
+    "Coq proof over R (recurrences of reward-to-go, GAE and n-step return with residual discount; causality as suffix-independence plus a cut lemma at terminated steps; per-environment structure of the A2C and PPO batch preparations) + correspondence and metamorphic perturbation runs against the JAX functions",
+    "Theorems for all sequences, gamma, lambda and termination patterns: the estimators satisfy their defining recurrences; an estimate at time t is unchanged by any change before t or after the first terminated step at or after t; A2C and PPO estimates of one environment depend on that environment's column only (the single flat GAE formerly used by PPO is kept as a refuted statement). Extracted kernels are compared with compute_gae, discounted_n_step_return, discounted_reward_to_go, prepare_a2c_batch and the advantages inside the real update_ppo on every run, together with perturbation re-runs of the implementation.",
+    "Trusts: Coq kernel + standard-library real-number axioms; extraction, OCaml glue, harness; jax.lax.scan / vmap as executed; float32 rounding handled by a 2^-18 relative tolerance. The MR.Q critic target and encoder-loss masks named by C07 are covered by the C03 check.",
+)
 _PENDING = "check not built yet in this revision (planned: Coq model + correspondence, see DESIGN.md §2)"
 NOT_APPLICABLE = {f"C{i:02d}": _PENDING for i in range(1, 21) if f"C{i:02d}" not in CHECKS}
